@@ -143,6 +143,18 @@ class RulesMixin:
             return PList(sym=SymSeq(e, "str" if ty == "strs" else "bstr"))
         if ty.startswith("const "):
             return eval(ty[6:], {"__builtins__": {}}, {})
+        if ty.startswith("callable"):
+            # callable{record:NAME;raises:Exc1,Exc2;returns:TYPE;yields:1}
+            opts = {}
+            m = re.match(r"callable\{(.*)\}$", ty)
+            if m:
+                for kv in _split_top(m.group(1), ";"):
+                    if kv:
+                        k, v = kv.split(":", 1)
+                        opts[k.strip()] = v.strip()
+            raises = [self.exc_class(x.strip()) for x in opts.get("raises", "").split(",") if x.strip()]
+            return SObj("pyvc:Callable", {"record": opts.get("record"), "raises": raises, "returns": opts.get("returns"),
+                                          "yields": opts.get("yields", "1") not in ("0", "false", "")}, tag=name)
         if ty.startswith("opt "):
             nm = ctx.fresh_name(name + ".isnone")
             isn = z3.Bool(nm)
@@ -482,6 +494,8 @@ class RulesMixin:
             if cc is not None:
                 self.assume_inv(slf, cc)
         for cl in fc.ensures + fc.assumed_ensures:
+            if "local(" in cl.text:
+                continue  # speaks about the callee's locals: only meaningful inside its own unit
             self.assume_clause(cl, env2, old_env, cmod, f"ensures {cl.name}")
         for cl in fc.assumed_ensures:
             self.ctx.assumptions_used.add(f"assumed (not proved) postcondition of {fc.qualname}: {cl.text}")
@@ -559,6 +573,12 @@ class RulesMixin:
                 return PList(sym=SymSeq(ctx.fresh(name, sq.e.sort()), sq.elem))
         if isinstance(v, SymAny):
             return self.fresh_any(name, v.bytes_kind)
+        if isinstance(v, PDict):
+            return PDict({k: self.havoc_like(x, f"{name}.{k}") for k, x in v.items.items()})
+        if isinstance(v, SymMsg):
+            return self.make_symbolic("msg", name)
+        if v is None:
+            raise Unsupported(f"cannot havoc {name} (value None); declare its type in the loop spec")
         import enum as _enum
 
         if isinstance(v, _enum.Enum):
@@ -1054,6 +1074,8 @@ class RulesMixin:
                 new = self.havoc_like(cur, f"{name}@{label}")
                 if isinstance(cur, PList) and isinstance(new, PList):
                     cur.items, cur.sym = new.items, new.sym  # same list object, unknown content
+                elif isinstance(cur, PDict) and isinstance(new, PDict):
+                    cur.items = new.items  # same dict object, unknown values
                 else:
                     fr.locals[name] = new
             else:
@@ -1165,6 +1187,8 @@ class RulesMixin:
 
     def tail_len(self, tail):
         if isinstance(tail, SymSeq):
+            return z3.Length(tail.e)
+        if hasattr(tail, "e") and hasattr(tail, "elem"):
             return z3.Length(tail.e)
         n = self.ctx.fresh("n_iter", z3.IntSort())
         self.ctx.assume(n >= 0)
